@@ -91,6 +91,14 @@ def run(ctx, budget, findings_tokens=True):
         # tiny files
         for n in (0, 1, 2, 3, 23, 24, 25):
             files.append((bytes(rng.choice([0x2e, 0x31, 0]) for _ in range(n)), 'tiny%d' % n, R, M))
+    # P1-timed messages (real Pose / GNSSInfo payloads with times), preceded by CRC-valid messages of the same types whose
+    # payload is too short to decode: the time column must still be right for every later message
+    from props import reader_common as rc
+    for _ in range(max(2, budget // 6)):
+        seqs = {'n': 0}
+        bad = b''.join(gen.frame(t, bytes(rng.randrange(256) for _ in range(n)), 7, 0, 0) for t, n in ((10000, 20), (10001, 9)))
+        log = rc.make_log(rng, rng.choice([4, 9]), junk=True) + bad + rc.make_log(rng, rng.choice([3, 8]), junk=False, t_start=300.5)
+        files.append((log, 'timedN', 128, 256))
     # every shift of one message pair across a block boundary (odd and even offsets)
     R, M = 64, 64
     base, _ = gen.small_file(rng, 3, M, 'VUW')
